@@ -253,6 +253,41 @@ def replay_file(path: str) -> int:
     return 0
 
 
+def refine_natively(cand: dict, prop: str, budget: int = 40) -> Optional[dict]:
+    """A solver model may sit exactly on a boundary that double rounding moves to the other side (|a-b| = tol*|a| over the reals),
+    or use values that collapse to one double.  Before calling such a candidate unconfirmed, look for a double-representable
+    witness next to it: relative nudges of single inputs and of pairs of nearly equal inputs.  Only a natively failing
+    assignment is returned; it is then confirmed like any other candidate."""
+    from .ctx import inputs_from_json
+    base = inputs_from_json(cand['inputs'])
+    reals = [k for k, v in base.items() if isinstance(v, float)]
+    trials = []
+    for i, a in enumerate(reals):
+        for b in reals[i + 1:]:
+            va, vb = base[a], base[b]
+            if va != 0 and abs(va - vb) <= 1e-6 * max(abs(va), abs(vb)):
+                for d in (1e-10, -1e-10, 4e-10, -4e-10, 1e-12, -1e-12, 0.0):
+                    t = dict(base)
+                    t[b] = va * (1 + d)
+                    trials.append(t)
+    for a in reals:
+        for d in (1e-9, -1e-9, 1e-12, -1e-12, 1e-6, -1e-6):
+            t = dict(base)
+            t[a] = base[a] * (1 + d) if base[a] != 0 else d
+            trials.append(t)
+    for t in trials[:budget]:
+        try:
+            fl, _, _ = replay_inprocess(cand['harness'], cand['config'], t, prop)
+        except Exception:
+            continue
+        if any(f.name == cand['check'] for f in fl):
+            c2 = dict(cand)
+            c2['inputs'] = t
+            c2['source'] = 'double-representable witness next to the solver model (the model itself sits on a rounding boundary)'
+            return c2
+    return None
+
+
 def confirm(cand: dict, prop: str, n: int) -> Optional[str]:
     """write the candidate to a replay file and confirm it in a fresh interpreter (no stubs)"""
     d = os.path.join(VERIF, 'replays', prop)
@@ -434,11 +469,17 @@ def run_property(prop: str, tier: str, seed: int, jobs: int = 0, only: Optional[
     also = []
     groups: Dict[Any, list] = {}
     reproduced_keys = set()
+    refine_budget = [12]
     for cand in all_candidates:
         key = (cand['harness'], json.dumps(cand['config'], sort_keys=True, default=str), cand['check'])
         if key in reproduced_keys:
             continue
         fl, _, ab = replay_inprocess(cand['harness'], cand['config'], cand['inputs'], prop)
+        if not fl and refine_budget[0] > 0:
+            refine_budget[0] -= 1
+            better = refine_natively(cand, prop)
+            if better is not None:
+                cand, fl = better, True
         if fl:
             reproduced_keys.add(key)
             cfg0 = next(iter(cand['config'].values()), None) if cand['config'] else None
